@@ -836,6 +836,46 @@ def install(rec):
                    attach.monitored(rec, "TensorNetwork1DFlat.compress", pre_c, post_c, fam="cmpflat"))
 
 
+    # compress_site(i): the two bonds next to the orthogonality centre
+    def pre_cs(self, i, canonize=True, info=None, bra=None, **k):
+        if self.cyclic or self.num_tensors != self.L or not is_vec(self) or bra is not None:
+            return None
+        d = vec_of(self)
+        return None if not d else {"d": d}
+
+    def post_cs(s, out, self, i, canonize=True, info=None, bra=None, **k):
+        d2 = vec_of(self)
+        if not d2:
+            return
+        v, sc, eps = s["d"]
+        mb, cutoff = k.get("max_bond"), k.get("cutoff", 1e-10)
+        L = self.L
+        i = i % L
+        bonds = [c for c in (i - 1, i) if 0 <= c < L - 1]     # cut c is between sites c, c+1
+        if mb is not None:
+            got = max([self.bond_size(c, c + 1) for c in bonds], default=1)
+            rec.check("compress", "cap", got <= mb, mech="compress:site:cap_exceeded",
+                      detail={"max_bond": mb, "got": got, "site": i})
+        nrm = float(np.linalg.norm(v))
+        if nrm == 0 or not canonize or any(q in k for q in ("reduced", "absorb", "cutoff_mode", "method", "renorm")):
+            return
+        spectra = schmidt_ranks(v)
+        b2 = 0.0
+        for c in bonds:
+            sp = spectra[c]
+            keep = len(sp) if mb is None else min(len(sp), mb)
+            b2 += float((sp[keep:] ** 2).sum())
+            if cutoff:
+                b2 += cutoff * nrm ** 2
+        err = float(np.linalg.norm(d2[0] - v))
+        bound = (b2 ** 0.5) * (1 + 1e-6) + 1e4 * eps * nrm
+        rec.check("compress", "error_bound", err <= bound, mech="compress:site:error_bound",
+                  detail={"err": err, "bound": bound, "site": i, "max_bond": mb, "cutoff": cutoff, "L": L},
+                  sig=("compress_site", v.shape, i, mb is not None))
+    attach.install(c1.TensorNetwork1DFlat, "compress_site",
+                   attach.monitored(rec, "TensorNetwork1DFlat.compress_site", pre_cs, post_cs, fam="cmpsite"))
+
+
 class _Skip(Exception):
     pass
 
@@ -1304,7 +1344,10 @@ def wl_flat_compress(rng, rec, tier):
         kw["max_bond"] = int(rng.integers(1, 6))
     if rng.random() < 0.6:
         kw["cutoff"] = gen.choice(rng, [0.0, 1e-12, 1e-3])
-    gen.attempt(x.compress, form, **kw)
+    if rng.random() < 0.4:
+        gen.attempt(x.compress_site, int(rng.integers(0, L)), **kw)
+    else:
+        gen.attempt(x.compress, form, **kw)
     if rng.random() < 0.3:
         A, _ = rand_mpo(rng, min(L, 4))
         gen.attempt(A.compress, gen.choice(rng, [None, "left", "right"]), **kw)
